@@ -61,6 +61,7 @@ func setLimits(msgLimit int) {
 
 type instance struct {
 	e       *env
+	alloc   *base.LogAllocator
 	parser  base.LogParser
 	counter *base.LogInputCounterSet
 	mf      *promreg.MetricFactory
@@ -74,7 +75,7 @@ func newInstance(e *env) *instance {
 	if err != nil {
 		panic(err)
 	}
-	return &instance{e: e, parser: parser, counter: counter, mf: mf}
+	return &instance{e: e, alloc: alloc, parser: parser, counter: counter, mf: mf}
 }
 
 type metrics struct {
@@ -508,12 +509,65 @@ func enumerate(ctx *seq.Ctx) {
 		}
 	}
 
+	// ---- G8: all sequences of length <= 3 over the release menu on ONE parser, records released after each line
+	ctx.Group("release-history")
+	nm := len(releaseMenu(64))
+	for a := 0; a < nm; a++ {
+		for b := 0; b < nm; b++ {
+			ab := []int{a, b}
+			ctx.Case(fmt.Sprintf("release-history/%d-%d", a, b), true, fmt.Sprint(ab), func() (string, string) { return checkReleaseSequence(ab) })
+			for c := 0; c < nm; c++ {
+				abc := []int{a, b, c}
+				ctx.Case(fmt.Sprintf("release-history/%d-%d-%d", a, b, c), true, fmt.Sprint(abc), func() (string, string) { return checkReleaseSequence(abc) })
+			}
+		}
+	}
+
 	// ---- G7: histories: one parser, many lines; totals after UpdateMetrics and earlier records stay intact
 	ctx.Group("history")
 	for variant := 0; variant < 6; variant++ {
 		v := variant
 		ctx.Case(fmt.Sprintf("history/%d", v), true, fmt.Sprintf("history variant %d", v), func() (string, string) { return checkHistory(v) })
 	}
+}
+
+// releaseMenu: lines whose PRI values share their digit count pairwise, short and pooled-size, plus lines the parser
+// rejects after having allocated a record (the record is released by the parser itself).
+func releaseMenu(L int) []string {
+	var m []string
+	for _, pri := range []int{134, 131, 27, 30, 3, 5} {
+		m = append(m, buildLine(fmt.Sprintf("<%d>1", pri), typicalTokens, fmt.Sprintf("short message of pri %d", pri)))
+		m = append(m, buildLine(fmt.Sprintf("<%d>1", pri), typicalTokens, asciiPad(L-2, pri)))
+	}
+	m = append(m, "<27>1 2020-01-02T03:04:05Z only three tokens here-and-nothing-more")
+	m = append(m, "<131>1 2020-01-02T03:04:05Z only three tokens here-and-nothing-more-but-longer-than-before-xxxxxxxxxx")
+	return m
+}
+
+// checkReleaseSequence: ONE parser, every record is checked right after Parse and then RELEASED (as the pipeline does after
+// serialization) before the next line is parsed, so pooled records and backing buffers are really reused. seq lists menu
+// indices.
+func checkReleaseSequence(seqIdx []int) (string, string) {
+	const L = 64
+	setLimits(L)
+	savedPool := defs.InputLogMinRecordBytesToPool
+	defs.InputLogMinRecordBytesToPool = 16
+	defer func() { defs.InputLogMinRecordBytesToPool = savedPool }()
+	menu := releaseMenu(L)
+	e := envs[3]
+	in := newInstance(e)
+	for n, idx := range seqIdx {
+		line := menu[idx]
+		rec := in.parseOne(line)
+		ref := refParse(line)
+		if key, msg := checkRecord(e, line, ref, rec, L); key != "" && !strings.HasPrefix(key, "truncate:") {
+			return "release-history:" + key, fmt.Sprintf("line %d of the sequence %v on one parser with records released in between: %s", n+1, seqIdx, msg)
+		}
+		if rec != nil {
+			in.alloc.Release(rec)
+		}
+	}
+	return "", ""
 }
 
 // checkHistory feeds a fixed list of lines (well-formed, over-long, malformed) to ONE parser in an order given by the
